@@ -9,6 +9,8 @@ Engine: production client Transport against a raw-mode puppet server on the in-m
   - CHANNEL_REQUEST of any type       - Transport.request_port_forward (granted / refused)
     on any live channel               - Transport.cancel_port_forward
                                       - open / close further client channels
+                                      - server-mode configuration applied to the CLIENT transport through the
+                                        public API: set_subsystem_handler(name, handler), add_server_key(key)
 
 A history runs on 1-3 client transports living in ONE process (each against its own puppet server): every operation names
 the transport it acts on; transports are added and closed in the middle of a history ("newconn"/"closeconn"), so a kind may be
@@ -24,12 +26,15 @@ sent in reaction to the operation is in the puppet's log when the oracle runs: n
 
 Model: x11 enabled after a *granted* x11 request; agent after request_forward_agent; forwarded-tcpip
 while at least one granted port forward has not been cancelled.
+Request payloads are drawn too: the subsystem name of a "subsystem" request comes from the names the client registered
+handlers for (when it did), a fixed pool, or is random; exec commands / terminal names from small pools.
 Oracle (statement only):
   global request        -> never REQUEST_SUCCESS; REQUEST_FAILURE when a reply was asked for
   channel open          -> kind not enabled: CHANNEL_OPEN_FAILURE for our sender id, no channel
                            handed to accept()/handlers, no new channel in the client's table
   exec/shell/subsystem/pty-req channel request -> never CHANNEL_SUCCESS; CHANNEL_FAILURE when a
-                           reply was asked for
+                           reply was asked for; no subsystem handler registered on the client is ever
+                           instantiated / started by a server request
 The session must stay usable (sentinel answered) after every server-initiated action.
 Accepting an enabled kind is recorded (class counts) but not demanded: the statement is about refusal.
 """
@@ -45,13 +50,16 @@ PROPERTY = "C18"
 LEVEL = "exploration"
 RULE = (
     "hypothesis RuleBasedStateMachine over 1-3 client transports in one process (each vs its own raw puppet server; transports are "
-    "added and closed mid-history, every rule draws the transport it acts on, model per transport): rules = server GLOBAL_REQUEST (tcpip-forward, "
+    "added (half of them with 1-2 subsystem handlers registered at set-up) and closed mid-history, every rule draws the transport it acts on, model per transport): rules = server GLOBAL_REQUEST (tcpip-forward, "
     "cancel-tcpip-forward, keepalive, no-more-sessions, random name; want_reply 0/1), server CHANNEL_OPEN (session, x11, "
     "auth-agent@openssh.com, forwarded-tcpip, direct-tcpip, random kind), server CHANNEL_REQUEST (exec, shell, subsystem, pty-req, env, "
-    "x11-req, auth-agent-req, window-change, exit-status, xon-xoff, random; want_reply 0/1) on client- or server-opened channels, "
+    "x11-req, auth-agent-req, window-change, exit-status, xon-xoff, random; want_reply 0/1; subsystem name = one the client registered a "
+    "handler for / pool / random, exec command and terminal name from pools) on client- or server-opened channels, "
+    "server-mode configuration of the client transport (set_subsystem_handler(name) with a recording handler, add_server_key), "
     "client request_x11 (granted/refused), request_forward_agent, request_port_forward (granted/refused, handler/accept queue), "
     "cancel_port_forward, open/close client channel, new transport, close transport; non-trivial = history with a server-initiated "
-    "action after an enable (on this or another transport of the history) or after a cancel; distinct by the operation list"
+    "action after an enable (on this or another transport of the history), after a cancel or after a server-mode configuration call; "
+    "distinct by the operation list"
 )
 
 TO = 15.0  # "never" detector on a shared machine, not a performance bound
@@ -155,6 +163,10 @@ class Sess:
                 self.classes.append("transport-created-after-another-was-closed")
             if len(self.conns) >= 2:
                 self.classes.append("transports-live=%d" % len(self.conns))
+            # server-mode configuration done when the transport is set up (before anything else happens on it)
+            for name in op.get("subsys", ()):
+                c.op_srvconf({"what": "subsystem-handler", "name": name})
+                self.classes.append("config:at-transport-setup")
             c.op_copen(op)
             return
         c = self.conn(op.get("conn", 0))
@@ -195,6 +207,9 @@ class Conn:
         self.handled = []  # channels handed to explicit handlers
         self.after_enable = False
         self.after_cancel = False
+        self.after_config = False
+        self.subsys = set()  # names this client registered a subsystem handler for (set_subsystem_handler on a CLIENT transport)
+        self.started = []  # (name, stage) of registered handlers a server request got instantiated / started
 
     # ------------------------------------------------------------------ plumbing
     def close(self):
@@ -283,8 +298,10 @@ class Conn:
 
     # ------------------------------------------------------------------ operations
     def _server_action(self):
-        if self.after_enable or self.after_cancel or any(c.after_enable for c in self.sess.conns) or self.sess.closed_enabled:
+        if self.after_enable or self.after_cancel or self.after_config or any(c.after_enable for c in self.sess.conns) or self.sess.closed_enabled:
             self.sess.nontrivial = True
+        if self.after_config:
+            self.classes.append("action-after-server-mode-config")
         if self.after_enable:
             self.classes.append("action-after-enable")
         if self.after_cancel:
@@ -394,11 +411,11 @@ class Conn:
     def _req_rest(self, op):
         n = op["name"]
         if n == "exec":
-            return R.string(b"/bin/sh -c id")
+            return R.string(EXEC_CMDS[op.get("arg", 0) % len(EXEC_CMDS)])
         if n == "subsystem":
-            return R.string(b"sftp")
+            return R.string(self._subsystem_name(op).encode("utf-8"))
         if n == "pty-req":
-            return R.string(b"vt100") + R.u32(80) + R.u32(24) + R.u32(0) + R.u32(0) + R.string(b"")
+            return R.string(TERMS[op.get("arg", 0) % len(TERMS)]) + R.u32(80) + R.u32(24) + R.u32(0) + R.u32(0) + R.string(b"")
         if n == "env":
             return R.string(b"LANG") + R.string(b"C")
         if n == "x11-req":
@@ -413,10 +430,34 @@ class Conn:
             return b""
         return op["rest"]
 
+    def _subsystem_name(self, op):
+        """op["sub"]: int = index into the names this client registered handlers for (pool when it registered none),
+        str = literal name; absent (histories saved earlier) = "sftp"."""
+        sub = op.get("sub", "sftp")
+        if isinstance(sub, int):
+            names = sorted(self.subsys) or list(SUBSYS_POOL)
+            return names[sub % len(names)]
+        return sub
+
+    def op_srvconf(self, op):
+        """Server-mode configuration applied to the client transport through the public API (an application that sets up
+        client and server transports with one helper, or acts as both): what the client 'enabled itself' does not change."""
+        if op["what"] == "subsystem-handler":
+            name = op["name"]
+            self.tc.set_subsystem_handler(name, _recording_handler(), self.started)
+            self.subsys.add(name)
+            self.classes.append("config:set_subsystem_handler:" + _name_class(name, SUBSYS_POOL))
+        else:
+            self.tc.add_server_key(peers.keypool()[SERVER_KEYS[op.get("key", 0) % len(SERVER_KEYS)]])
+            self.classes.append("config:add_server_key")
+        self.after_config = True
+
     def op_creq(self, op):
         self._server_action()
         ch = self.chan(op["chan"])
         name = op["name"]
+        if name == "subsystem":
+            self.classes.append("chanreq:subsystem:%s" % ("handler-registered-for-name" if self._subsystem_name(op) in self.subsys else "no-handler-for-name"))
         self.ts.send_raw_seq(peers.m_channel_request(ch["cid"], name.encode("utf-8"), op["want"], self._req_rest(op)))
         new = self.sync("creq")
         replies = [e[1] for e in new if e[1] in (99, 100) and e[2][:4] == R.u32(ch["pid"])]
@@ -429,6 +470,9 @@ class Conn:
                 self.fail("channel-request-refused", "no-CHANNEL_FAILURE:%s" % name, "client answered %r (want_reply) with %r" % (name, [(e[1], e[2][:12].hex()) for e in new]))
             if not op["want"] and replies:
                 self.fail("channel-request-refused", "reply-not-asked-for:%s" % name, "replies %r" % replies)
+        if self.started:
+            # also without a reply (want_reply 0): a handler the client registered must never be run on the server's command
+            self.fail("channel-request-refused", "subsystem-handler-started:%s" % name, "request %r (subsystem name %r) made the client instantiate/start registered handlers: %r" % (name, self._subsystem_name(op) if name == "subsystem" else None, self.started))
 
     def op_x11(self, op):
         ch = self.chan(op["chan"])
@@ -509,6 +553,28 @@ FORWARD_KINDS = ("x11", "auth-agent@openssh.com", "forwarded-tcpip")
 REQ_NAMES = ("exec", "shell", "subsystem", "pty-req", "env", "x11-req", "auth-agent-req@openssh.com", "window-change", "exit-status", "xon-xoff")
 
 
+SUBSYS_POOL = ("sftp", "netconf", "echo@verif")
+EXEC_CMDS = (b"/bin/sh -c id", b"ls", b"", b"scp -t /tmp")
+TERMS = (b"vt100", b"xterm-256color", b"")
+SERVER_KEYS = ("ed25519", "ecdsa256", "rsa2048")
+
+
+def _recording_handler():
+    """A SubsystemHandler subclass that records being instantiated / started in the list registered with it."""
+    from paramiko.server import SubsystemHandler
+
+    class Recording(SubsystemHandler):
+        def __init__(self, channel, name, server, started, *a, **kw):
+            started.append((name, "instantiated"))
+            self._started = started
+            SubsystemHandler.__init__(self, channel, name, server)
+
+        def start_subsystem(self, name, transport, channel):
+            self._started.append((name, "started"))
+
+    return Recording
+
+
 def _name_class(name, known):
     return name if name in known else "other"
 
@@ -525,6 +591,10 @@ def run(ctx):
     ctx.set_budget(85, 780)
     ctx.assume("the puppet server answers the client's own requests (x11-req, tcpip-forward, cancel) as drawn; well-formed payloads for known request/open names")
     conn_ix = st.integers(0, Sess.MAX_CONNS - 1)
+    # subsystem name of a server-sent "subsystem" request: index into the names the client registered (int) / pool / random
+    sub_name = st.one_of(st.integers(0, 3), st.integers(0, 3).map(lambda v: v), st.integers(0, 3).map(lambda v: v), st.sampled_from(SUBSYS_POOL), rand_name)
+    # subsystem handlers registered while a transport is set up: none (half of the transports) or 1-2 names
+    setup_subsys = st.one_of(st.just([]), st.lists(st.one_of(st.sampled_from(SUBSYS_POOL), rand_name), min_size=1, max_size=2, unique=True))
 
     class Machine(RuleBasedStateMachine):
         def __init__(self):
@@ -542,15 +612,15 @@ def run(ctx):
             except Stop:  # only reachable when ctx.violation did not raise (listed finding)
                 pass
 
-        @initialize(n=st.sampled_from([1, 1, 2, 3]))
-        def connect(self, n):
-            for _ in range(n):
-                self._do({"op": "newconn"})
+        @initialize(n=st.sampled_from([1, 1, 2, 3]), subsys=st.lists(setup_subsys, min_size=3, max_size=3))
+        def connect(self, n, subsys):
+            for i in range(n):
+                self._do({"op": "newconn", "subsys": subsys[i]})
 
         @precondition(lambda self: self.s is not None and len(self.s.conns) < Sess.MAX_CONNS)
-        @rule()
-        def new_transport(self):
-            self._do({"op": "newconn"})
+        @rule(subsys=setup_subsys)
+        def new_transport(self, subsys):
+            self._do({"op": "newconn", "subsys": subsys})
 
         @precondition(lambda self: self.s is not None and len(self.s.conns) >= 2)
         @rule(conn=conn_ix)
@@ -571,9 +641,17 @@ def run(ctx):
         def server_open_feature(self, conn, kind, window, maxpkt, addr, port):
             self._do({"op": "sopen", "conn": conn, "kind": kind, "window": window, "maxpkt": maxpkt, "addr": addr, "port": port, "rest": b""})
 
-        @rule(conn=conn_ix, chan=st.integers(0, 7), name=st.one_of(st.sampled_from(REQ_NAMES), st.sampled_from(RUN_REQS), rand_name), want=st.booleans(), rest=small_rest, status=st.integers(0, 0xFFFFFFFF))
-        def server_chan_request(self, conn, chan, name, want, rest, status):
-            self._do({"op": "creq", "conn": conn, "chan": chan, "name": name, "want": want, "rest": rest, "status": status})
+        @rule(conn=conn_ix, chan=st.integers(0, 7), name=st.one_of(st.sampled_from(REQ_NAMES), st.sampled_from(RUN_REQS), rand_name), want=st.booleans(), rest=small_rest, status=st.integers(0, 0xFFFFFFFF), sub=sub_name, arg=st.integers(0, 3))
+        def server_chan_request(self, conn, chan, name, want, rest, status, sub, arg):
+            self._do({"op": "creq", "conn": conn, "chan": chan, "name": name, "want": want, "rest": rest, "status": status, "sub": sub, "arg": arg})
+
+        @rule(conn=conn_ix, chan=st.integers(0, 7), name=st.sampled_from(RUN_REQS), want=st.booleans(), sub=sub_name, arg=st.integers(0, 3))
+        def server_run_request(self, conn, chan, name, want, sub, arg):
+            self._do({"op": "creq", "conn": conn, "chan": chan, "name": name, "want": want, "rest": b"", "status": 0, "sub": sub, "arg": arg})
+
+        @rule(conn=conn_ix, what=st.sampled_from(["subsystem-handler", "subsystem-handler", "subsystem-handler", "server-key"]), name=st.one_of(st.sampled_from(SUBSYS_POOL), rand_name), key=st.integers(0, 2))
+        def client_server_mode_config(self, conn, what, name, key):
+            self._do({"op": "srvconf", "conn": conn, "what": what, "name": name, "key": key})
 
         @rule(conn=conn_ix, chan=st.integers(0, 7), grant=st.booleans(), handler=st.booleans(), screen=st.integers(0, 3))
         def client_x11(self, conn, chan, grant, handler, screen):
